@@ -606,6 +606,18 @@ class GroupState(object):
     def copy(self):
         return GroupState(self.N, [(g.copy(), p) for g, p in self.gens])
 
+    def apply_rot(self, G, PG):
+        self.gens = [(lambda r: (r[0], int(r[1])))(rot_image(G, PG, g, p)) for g, p in self.gens]
+
+    def apply_map(self, mgs, mps):
+        self.gens = [map_image(mgs, mps, g, p) for g, p in self.gens]
+
+    def expect(self, g, p):
+        kind, bit = self.classify(g, p % 2 * 0 + (int(p) // 2) * 2)
+        if kind != 'det':
+            return 0
+        return (1j ** (int(p) % 2)) * (-1) ** bit
+
     def rho(self):
         D = 2 ** self.N
         out = np.eye(D, dtype=complex)
